@@ -247,6 +247,12 @@ def run_case(case):
             raise BadCase("summed index on operators only")
     free_l = sorted(l for l, n in cnt.items() if n == 1)
     free = tuple(sorted(syms(free_l), key=idx_key))
+    dims = {"occ": 3, "virt": 2, "general": 5}
+    vol = 1
+    for l in set(free_l) | set(cnt):
+        vol *= dims[label_class(l)[0]]
+    if vol > 3e6:
+        raise BadCase("too many indices for the reference evaluation")
     gen_on_op = any(label_class(o[1])[0] == "general" for o in ops)
     gen_in_no = any(label_class(ops[i][1])[0] == "general"
                     for g in structure if g[0] == "no" for i in g[1])
